@@ -17,7 +17,7 @@ RULE = ("constructors: every name = letter x every '#'/'b' string up to length k
         "a descending pitch-class difference, i.e. the mod-12 wrap). Also: Hypothesis pairs with accidental strings of "
         "length 0..40 (half of them on one letter); every pair with <= 2 accidentals with the flag omitted, passed by keyword "
         "and given as a number (0, 1, 0.0, 2); every constructor asked right after every other one on the same root; accidental strings that lean "
-        "to one sign with a few signs of the other kind in between.")
+        "to one sign with a few signs of the other kind in between. The three unison constructors are held to the unmixed / at-most-six-accidentals clause on every input, like the other 14.")
 ASSUMPTIONS = [
     "oracle: own constructor table (interval number, semitones) and letter/semitone arithmetic in vlib/ref/theory.py",
     "spelling is compared as (letter, pitch class, unmixed, <= 6 accidentals), never as an exact accidental string",
